@@ -68,6 +68,9 @@ fn main() {
         let cx = cfg.ctx();
         let store = Store::new();
         let db = builder(&cfg).create_with_backend(store.backend()).expect("HARNESS: create");
+        // every other run on a storage whose sync takes time: readers then begin INSIDE the window in which a durable
+        // commit has written its header but not yet published it in memory
+        store.set_sync_delay([0, 150, 400][(run % 3) as usize]);
         let clock = AtomicU64::new(1);
         let tick = || clock.fetch_add(1, Ordering::SeqCst);
         let next_tid = AtomicU64::new(1);
